@@ -188,7 +188,7 @@ def build_and_run(sources, options=("-g",), timeout=120, keep=False):
                                cwd=tmp, capture_output=True, text=True, timeout=timeout)
         except subprocess.TimeoutExpired:
             return {"compile_rc": 124, "compile_stderr": "TIMEOUT", "run_rc": None, "stdout": "", "stderr": ""}
-        res = {"compile_rc": p.returncode, "compile_stderr": p.stderr[-3000:], "run_rc": None,
+        res = {"compile_rc": p.returncode, "compile_stderr": p.stderr[:8000], "run_rc": None,
                "stdout": "", "stderr": ""}
         if p.returncode != 0:
             return res
